@@ -134,6 +134,27 @@ def _ft_same(E):
     return z3.BoolVal(c) if isinstance(c, bool) else c
 
 
+def _ft_dict_same(E):
+    r0, r1 = E.s0.objs[E["value"].oid], E.s1.objs[E.res.oid]
+    if r0.get("lazy") or r1.get("lazy"):
+        k = qv("fk", r0["dom"].sort().domain() if not r0.get("lazy") else r1["dom"].sort().domain())
+        rr = r1 if r0.get("lazy") else r0
+        return z3.BoolVal(True) if (r0.get("lazy") and r1.get("lazy")) else FA([k], z3.Not(z3.Select(rr["dom"], k)))
+    k = qv("fk", r0["dom"].sort().domain())
+    return z3.And(z3.BoolVal(E.res.oid != E["value"].oid),
+                  FA([k], z3.Select(r1["dom"], k) == z3.Select(r0["dom"], k), patterns=[z3.Select(r1["dom"], k)]),
+                  FA([k], z3.Implies(z3.Select(r0["dom"], k), z3.Select(r1["val"], k) == z3.Select(r0["val"], k)),
+                     patterns=[z3.Select(r1["val"], k)]))
+
+
+def _ft_dict_result(eng, st, E):
+    from pyvc.state import alloc_dict
+    r0 = st.objs[E["value"].oid]
+    if r0.get("lazy"):
+        return alloc_dict(st, "id", "ref:Any")
+    return alloc_dict(st, r0["kkind"], r0["vkind"])
+
+
 def _ft_cases():
     out = []
     for tag, t, vt in (("str", TStr(), VStr), ("float", TReal(), VReal), ("bool", TBool(), VBool), ("int", TInt(), VInt)):
@@ -145,11 +166,183 @@ def _ft_cases():
     c = Case("none", ensures=lambda E: z3.BoolVal(isinstance(E.res, VConc) and E.res.py == ""))
     c.params_override = {"value": TNone()}
     c.types = {"value": VNone}
+    c.result = lambda eng, st, E: (st, VConc(""))
+    out.append(c)
+    # a dictionary (notes, annotation): a NEW dictionary with the same keys and the same value objects (its key order - sorted -
+    # is not part of the contract: the order BY KEY of sorted() is not modelled)
+    c = Case("dict", ensures=_ft_dict_same)
+    c.params_override = {"value": TDict("id", "ref:Any")}
+    c.types = {"value": VObj}
+    c.applies = lambda a, st: getattr(a["value"], "kind", None) == "dict" and not st.objs[a["value"].oid].get("pure")
+    c.result = _ft_dict_result
     out.append(c)
     return out
 
 
 REG.add(Contract(MD, "_fix_type", "C11", [("value", TStr())], _ft_cases(), key="_fix_type"))
+
+
+# ---------------------------------------------------------------- dict._update_optional (proved for the four instantiations)
+# For every key of ordered_keys, in any order: the entry is present afterwards exactly when the attribute is not None and differs
+# from its default, and then holds _fix_type(attribute) (the same scalar; for a dictionary a new dictionary with the same keys and
+# value objects); every other entry of new_dict is untouched.
+import itertools as _it
+
+_DICT_T = lambda: TDict("id", "ref:Any")  # noqa
+UO_INST = {
+    # tag: (ordered keys, {key: default as written in dict.py}, {key: [admissible attribute types]})
+    "reaction": (("objective_coefficient", "subsystem", "notes", "annotation"),
+                 {"objective_coefficient": 0, "subsystem": "", "notes": {}, "annotation": {}},
+                 {"objective_coefficient": [TReal], "subsystem": [TStr], "notes": [_DICT_T], "annotation": [_DICT_T]}),
+    "metabolite": (("charge", "formula", "_bound", "notes", "annotation"),
+                   {"charge": None, "formula": None, "_bound": 0, "notes": {}, "annotation": {}},
+                   {"charge": [TNone, TInt], "formula": [TNone, TStr], "_bound": [TReal], "notes": [_DICT_T], "annotation": [_DICT_T]}),
+    "gene": (("notes", "annotation"), {"notes": {}, "annotation": {}}, {"notes": [_DICT_T], "annotation": [_DICT_T]}),
+    "model": (("name", "compartments", "notes", "annotation"),
+              {"name": None, "compartments": [], "notes": {}, "annotation": {}},
+              {"name": [TNone, TStr], "compartments": [_DICT_T], "notes": [_DICT_T], "annotation": [_DICT_T]}),
+}
+
+
+def _uo_written(E, st, v, default):
+    """condition (python bool or z3 Bool) under which an attribute value is written: not None and != default"""
+    if isinstance(v, VNone):
+        return False
+    if default is None:
+        return True
+    if isinstance(default, list):            # a dictionary never equals the list []
+        return True
+    if isinstance(default, dict):
+        rec = st.objs[v.oid]
+        if rec.get("lazy"):
+            return False
+        k = qv("uk", rec["dom"].sort().domain())
+        return z3.Exists([k], z3.Select(rec["dom"], k))
+    if isinstance(default, str):
+        c = E.eng.eq(st, v, VConc(default))
+        return (not c) if isinstance(c, bool) else z3.Not(c)
+    c = E.eng.eq(st, v, VInt(default))
+    return (not c) if isinstance(c, bool) else z3.Not(c)
+
+
+def _uo_tag(E):
+    keys = E["ordered_keys"]
+    names = tuple(x.py for x in keys.items) if isinstance(keys, VTuple) else None
+    for tag, (ks, _, _) in UO_INST.items():
+        if ks == names:
+            return tag
+    return None
+
+
+def _uo_attr(E, st, key):
+    return st.objs[E["cobra_object"].oid]["attr:" + key]
+
+
+def _uo_mod(E):
+    """at a call site: every optional key is put (conditionally) with the value _fix_type gives"""
+    tag = _uo_tag(E)
+    if tag is None:
+        raise Unsupported("_update_optional with an unknown key list")
+    ks, defaults, _ = UO_INST[tag]
+    locs = []
+    for key in ks:
+        v = _uo_attr(E, E.s0, key)
+        cond = _uo_written(E, E.s0, v, defaults[key])
+        if cond is False:
+            continue              # `continue`: an entry that was there stays (new_dict never has optional keys at the call sites)
+
+        def mk(st, v=v):
+            if isinstance(v, VObj):
+                r0 = st.objs[v.oid]
+                from pyvc.state import alloc_dict
+                st, d = alloc_dict(st, r0.get("kkind", "id"), r0.get("vkind", "ref:Any"))
+                r1 = st.objs[d.oid]
+                if r0.get("lazy"):
+                    k = qv("fk", r1["dom"].sort().domain())
+                    return st.assume(FA([k], z3.Not(z3.Select(r1["dom"], k)))), d
+                k = qv("fk", r0["dom"].sort().domain())
+                return st.assume(FA([k], z3.Select(r1["dom"], k) == z3.Select(r0["dom"], k), patterns=[z3.Select(r1["dom"], k)]),
+                                 FA([k], z3.Implies(z3.Select(r0["dom"], k), z3.Select(r1["val"], k) == z3.Select(r0["val"], k)),
+                                    patterns=[z3.Select(r1["val"], k)])), d
+            return st, v
+        locs.append(("record_put", E["new_dict"], key, cond, mk))
+    return locs
+
+
+def _uo_post_for(tag):
+    ks, defaults, _ = UO_INST[tag]
+
+    def post(E):
+        rec = E.s1.objs[E["new_dict"].oid]
+        if not rec.get("pure"):
+            return z3.BoolVal(False)
+        items = dict(rec["pyitems"])
+        rec0 = dict(E.s0.objs[E["new_dict"].oid]["pyitems"])
+        cs = []
+        for k0, v0 in rec0.items():            # frame: what was there is still there, unchanged (same value object)
+            cs.append(z3.BoolVal(k0 in ks or items.get(k0) is v0))
+        cs.append(z3.BoolVal(all(k in ks or k in rec0 for k in items)))       # nothing but optional keys was added
+        for key in ks:
+            v = _uo_attr(E, E.s0, key)
+            cond = _uo_written(E, E.s0, v, defaults[key])
+            cond = z3.BoolVal(cond) if isinstance(cond, bool) else cond
+            if key not in items:               # this path wrote nothing for the key
+                cs.append(z3.Not(cond))
+                continue
+            w = items[key]
+            if isinstance(w, tuple):           # conditional entry (the shape the call rule itself produces)
+                cs.append(w[1] == cond)
+                w = w[2]
+            else:
+                cs.append(cond)
+            if isinstance(v, VObj):
+                cs.append(z3.BoolVal(isinstance(w, VObj) and w.oid != v.oid))
+                if isinstance(w, VObj):
+                    r0, r1 = E.s0.objs[v.oid], E.s1.objs[w.oid]
+                    k = qv("pk", r0["dom"].sort().domain())
+                    cs.append(FA([k], z3.Select(r1["dom"], k) == z3.Select(r0["dom"], k), patterns=[z3.Select(r1["dom"], k)]))
+                    cs.append(FA([k], z3.Implies(z3.Select(r0["dom"], k), z3.Select(r1["val"], k) == z3.Select(r0["val"], k)),
+                                 patterns=[z3.Select(r1["val"], k)]))
+            else:
+                c = E.eng.eq(E.s1, w, v)
+                cs.append(z3.BoolVal(c) if isinstance(c, bool) else c)
+        return z3.And(*cs)
+    return post
+
+
+def _uo_record(st, name):
+    """new_dict as the callers hand it over: a record with the required entries (one stands for all: `id`)"""
+    from pyvc.state import alloc_obj
+    st, o = alloc_obj(st, "dict", {"pure": True, "pyitems": (("id", VStr(fresh("nd_id", Id))),)})
+    return st, VObj(o.oid, "dict", "dict")
+
+
+def _uo_cases():
+    out = []
+    for tag, (ks, defaults, types) in UO_INST.items():
+        for combo in _it.product(*[types[k] for k in ks]):
+            name = tag + "".join(":" + ("none" if t is TNone else "set") for k, t in zip(ks, combo) if len(types[k]) > 1)
+            c = Case(name, ensures=_uo_post_for(tag))
+            REG.classes.setdefault("OptRec_" + tag, [])
+            c.params_override = {
+                "cobra_object": TObj("OptRec_" + tag, {k: t() for k, t in zip(ks, combo)}),
+                "new_dict": TCustom(_uo_record),
+                "optional_attribute_dict": TCustom(lambda st, name, d=defaults: (st, VConc({
+                    k: (NONE if v is None else VInt(v) if isinstance(v, int) else VConc(v) if isinstance(v, (str, dict)) else VTuple(()))
+                    for k, v in d.items()}))),
+                "ordered_keys": TCustom(lambda st, name, ks=ks: (st, VTuple([VConc(k) for k in ks]))),
+            }
+            vt = {TNone: VNone, TInt: VInt, TStr: VStr, TReal: VReal}
+            c.applies = (lambda tag, ks, combo: lambda a, st: (
+                isinstance(a["ordered_keys"], VTuple) and tuple(x.py for x in a["ordered_keys"].items) == ks
+                and all(isinstance(st.objs[a["cobra_object"].oid].get("attr:" + k), vt.get(t, VObj)) for k, t in zip(ks, combo))))(tag, ks, combo)
+            out.append(c)
+    return out
+
+
+REG.add(Contract(MD, "_update_optional", "C11", [("cobra_object", TRef("Object")), ("new_dict", TRef("dict")),
+                                                  ("optional_attribute_dict", TConc({})), ("ordered_keys", TTuple([]))],
+                 _uo_cases(), key="_update_optional", modifies=_uo_mod))
 
 
 # ---------------------------------------------------------------- dict._reaction_to_dict (C11: what is written for a reaction)
@@ -162,7 +355,9 @@ REG.classes["ReactionRec"] = []
 
 def _r2d_reaction_t():
     return TObj("ReactionRec", {"id": TStr(), "name": TStr(), "lower_bound": TReal(), "upper_bound": TReal(),
-                                "gene_reaction_rule": TStr(), "metabolites": TDict("ref:Metabolite", "real")})
+                                "gene_reaction_rule": TStr(), "metabolites": TDict("ref:Metabolite", "real"),
+                                "objective_coefficient": TReal(), "subsystem": TStr(),
+                                "notes": TDict("id", "ref:Any"), "annotation": TDict("id", "ref:Any")})
 
 
 def _r2d_entry(E, key):
@@ -197,6 +392,23 @@ def _r2d_post(E):
             cs.append(z3.BoolVal(False))
     mets = _r2d_entry(E, "metabolites")
     cs.append(z3.BoolVal(isinstance(mets, VObj) and mets.kind == "dict"))
+    # optional entries: present exactly when the attribute differs from its default (through _update_optional's contract)
+    ks, defaults, _ = UO_INST["reaction"]
+    cs.append(z3.BoolVal(set(keys[6:]) <= set(ks)))
+    for key in ks:
+        v = r["attr:" + key]
+        want = _uo_written(E, E.s0, v, defaults[key])
+        want = z3.BoolVal(want) if isinstance(want, bool) else want
+        w = _r2d_entry(E, key)
+        if w is None:
+            cs.append(z3.Not(want))
+        elif isinstance(w, tuple):
+            cs.append(w[1] == want)
+            if not isinstance(v, VObj):
+                c = E.eng.eq(E.s1, w[2], v)
+                cs.append(z3.BoolVal(c) if isinstance(c, bool) else c)
+        else:
+            cs.append(want)
     return z3.And(*cs)
 
 
@@ -211,15 +423,65 @@ REG.add(Contract(MD, "_reaction_to_dict", "C11", [("reaction", _r2d_reaction_t()
                  loops={1: LoopSpec(_r2d_mets_inv, lambda E, Lc: [("dict", Lc.var("mets"), "id", "real")])}))
 
 
-def _uo_mod(E):
-    keys = E["ordered_keys"]
-    names = tuple(x.py for x in keys.items) if isinstance(keys, VTuple) else ()
-    return [("record_keys", E["new_dict"], names)]
+# ---------------------------------------------------------------- dict._metabolite_to_dict / _gene_to_dict
+def _simple_to_dict_post(param, required, tag):
+    ks, defaults, _ = UO_INST[tag]
+
+    def post(E):
+        r = E.s0.objs[E[param].oid]
+        st1 = E.s1
+        try:
+            from pyvc.builtins import to_record
+            st1 = to_record(E.s1, E.res)
+        except Unsupported:
+            return z3.BoolVal(False)
+        items = list(st1.objs[E.res.oid]["pyitems"])
+        keys = [k for k, _ in items]
+        d = dict(items)
+        cs = [z3.BoolVal(keys[:len(required)] == list(required) and set(keys[len(required):]) <= set(ks))]
+        for key in required:
+            v = r["attr:" + key]
+            if d.get(key) is None:
+                cs.append(z3.BoolVal(False))
+            elif isinstance(v, VNone):
+                cs.append(z3.BoolVal(isinstance(d.get(key), VConc) and d[key].py == ""))
+            else:
+                c = E.eng.eq(st1, d.get(key), v)
+                cs.append(z3.BoolVal(c) if isinstance(c, bool) else c)
+        for key in ks:
+            v = r["attr:" + key]
+            want = _uo_written(E, E.s0, v, defaults[key])
+            want = z3.BoolVal(want) if isinstance(want, bool) else want
+            w = d.get(key)
+            if w is None:
+                cs.append(z3.Not(want))
+            elif isinstance(w, tuple):
+                cs.append(w[1] == want)
+                if not isinstance(v, VObj):
+                    c = E.eng.eq(st1, w[2], v)
+                    cs.append(z3.BoolVal(c) if isinstance(c, bool) else c)
+            else:
+                cs.append(want)
+        return z3.And(*cs)
+    return post
 
 
-REG.add(Contract(MD, "_update_optional", "C11", [("cobra_object", TRef("Object")), ("new_dict", TRef("dict")),
-                                                  ("optional_attribute_dict", TConc({})), ("ordered_keys", TTuple([]))],
-                 [Case("any", ensures=lambda E: z3.BoolVal(True))], assumed=True, key="_update_optional", modifies=_uo_mod,
-                 note="dict._update_optional(obj, new_dict, defaults, ordered_keys): adds or replaces only entries whose key is in "
-                      "ordered_keys (non-default optional attributes); every other entry of new_dict stays (frame only; the body is "
-                      "a 6-line loop over the constant key list - exercised by the bounded C11 driver)"))
+def _simple_cases(param, cls, required, req_types, tag):
+    ks, _, types = UO_INST[tag]
+    out = []
+    for combo in _it.product(*([req_types[k] for k in required] + [types[k] for k in ks])):
+        names = list(required) + list(ks)
+        variable = [n for n in names if len((req_types.get(n) or types.get(n))) > 1]
+        name = tag + "".join(":" + ("none" if t is TNone else "set") for n, t in zip(names, combo) if n in variable)
+        c = Case(name, ensures=_simple_to_dict_post(param, required, tag))
+        REG.classes.setdefault(cls, [])
+        c.params_override = {param: TObj(cls, {n: t() for n, t in zip(names, combo)})}
+        out.append(c)
+    return out
+
+
+REG.add(Contract(MD, "_metabolite_to_dict", "C11", [("metabolite", TRef("Metabolite"))],
+                 _simple_cases("metabolite", "MetaboliteRec", ("id", "name", "compartment"),
+                               {"id": [TStr], "name": [TStr], "compartment": [TNone, TStr]}, "metabolite"), key="_metabolite_to_dict"))
+REG.add(Contract(MD, "_gene_to_dict", "C11", [("gene", TRef("Gene"))],
+                 _simple_cases("gene", "GeneRec", ("id", "name"), {"id": [TStr], "name": [TStr]}, "gene"), key="_gene_to_dict"))
